@@ -283,3 +283,8 @@ package flows
 //@   requires c != nil && !isnil(env)
 //@   ensures [named] c.name != "" ==> result == c.name
 //@   ensures [redacted_by_id] (c.name == "" && env.RedactionPolicy() == envs.RedactionPolicyURNs) ==> result == strconv.Itoa(int(c.id))
+
+// C20: the index of the group assets is by UUID (NewGroupAssets)
+//@ func (s *GroupAssets) Get
+//@   assigns nothing
+//@   ensures_trusted [by_uuid] result != nil ==> result.UUID() == uuid
